@@ -32,7 +32,8 @@ IsFault(f) == f \notin {"none", "eintr", "again", "detached"}
 CMonInit(h) == [h |-> h, socks |-> <<>>, phase |-> "idle", now |-> 0,
                 c |-> 0, kind |-> "none", ro |-> FALSE, start |-> 0,
                 hard |-> FALSE, soft |-> FALSE, rfault |-> FALSE, intr |-> FALSE,
-                expect |-> 0, sent |-> FALSE]
+                expect |-> 0, sent |-> FALSE,
+                io |-> {}]                         \* sockets this call has sent on or read from
 
 Open(sk) == sk.st \in {"created", "connected"}
 OpenIds(m) == { i \in DOMAIN m.socks : Open(m.socks[i]) }
@@ -102,6 +103,12 @@ CMonClauses(m, ev) ==
             <<"C06-next-call-after-a-failure-works", (ev.e = "raise" /\ Healthy(m)) => FALSE>>,
             <<"C09-idle-expired-connection-closed", \A i \in OpenIds(m) : ~Expired(m, i)>>,
             <<"C09-C10-no-pool-slot-lost", ev.used = 0>>,
+            (* a pooled call that fails with an ordinary exception after something went wrong on the connection -- a fault,   *)
+            (* an error line, a reply the client cannot use -- does not give the connection back to the pool.  (A documented *)
+            (* miss such as KeyError from [] is not a failure; an interrupted close() is C10's subject.)                     *)
+            <<"C09-a-pooled-connection-on-which-a-call-failed-is-closed",
+                  (m.h.kind \in {"pooled", "hashpooled"} /\ ev.e = "raise" /\ ev.x = "exc" /\ (m.rfault \/ m.hard \/ m.soft)) =>
+                     \A i \in m.io : ~Open(m.socks[i]) \/ Abandoned(m, i)>>,
             <<"C07-ignore-exc-read-never-raises",
                   (m.h.ignore_exc /\ m.ro /\ ev.e = "raise") => ev.x = "base">>,
             <<"C07-failed-read-returns-the-miss-result",
@@ -121,7 +128,7 @@ CMonEffect(m, ev) ==
   CASE ev.e = "tick" -> [m EXCEPT !.now = m.now + ev.d]
     [] ev.e = "call" -> [m EXCEPT !.phase = "busy", !.c = ev.c, !.kind = ev.kind, !.ro = ev.ro,
                                   !.start = m.now, !.hard = FALSE, !.soft = FALSE, !.intr = FALSE,
-                                  !.rfault = ev.rfault, !.expect = 0, !.sent = FALSE]
+                                  !.rfault = ev.rfault, !.expect = 0, !.sent = FALSE, !.io = {}]
     [] ev.e = "resolve" -> [m EXCEPT !.hard = m.hard \/ IsFault(ev.fault)]
     [] ev.e = "sock" ->
          IF ev.fault = "none"
@@ -152,11 +159,13 @@ CMonEffect(m, ev) ==
                    !.intr = m.intr \/ ev.fault \in Interrupts,
                    !.expect = m.expect + ev.nrep,
                    !.sent = m.sent \/ ev.fault = "none",
-                   !.rfault = m.rfault \/ ev.nerr > 0]
+                   !.rfault = m.rfault \/ ev.nerr > 0,
+                   !.io = IF Known(m, ev.s) THEN m.io \cup {ev.s} ELSE m.io]
     [] ev.e = "recv" ->
          [m EXCEPT !.socks = Mark(m, ev.s, IsFault(ev.fault)),
                    !.hard = m.hard \/ IsFault(ev.fault),
-                   !.intr = m.intr \/ ev.fault \in Interrupts]
+                   !.intr = m.intr \/ ev.fault \in Interrupts,
+                   !.io = IF Known(m, ev.s) THEN m.io \cup {ev.s} ELSE m.io]
     [] ev.e = "close" ->
          IF Known(m, ev.s) /\ m.socks[ev.s].st # "detached"
            (* an ordinary error inside close() is swallowed by the client: the descriptor is gone and the call goes on; *)
